@@ -135,8 +135,12 @@ fn answers(text: &str, nlc: &NewlineCache, rng: &mut Rng, maxspans: usize) -> Va
             let fl = catch(|| diag.file_location_msg("", Some(Span::new(s, e)))).unwrap_or_else(|_| "PANIC".to_string());
             let fnums: Vec<i64> = fl.rsplit(':').take(2).filter_map(|x| x.trim().parse().ok()).collect();
             let (fll, flc) = if fnums.len() == 2 { (fnums[1], fnums[0]) } else { (-7, -7) };
+            // the rendering of the span by the diagnostics formatter (code points; [-7] = panic)
+            let rd: Vec<i64> = catch(|| diag.underline_span_with_text(Span::new(s, e), "M".to_string(), '^'))
+                .map(|x| x.chars().map(|c| c as i64).collect())
+                .unwrap_or_else(|m| { if std::env::var("VH_DEBUG").is_ok() { eprintln!("render panic {:?} {} {}: {}", text, s, e, m); } vec![-7] });
             json!([s, e, st, en, lcs[0], lcs[1], lcs[2], lcs[3], sl.0, sl.1, ppl, ppc,
-                   lcs2[0], lcs2[1], lcs2[2], lcs2[3], sl2.0, sl2.1, fll, flc])
+                   lcs2[0], lcs2[1], lcs2[2], lcs2[3], sl2.0, sl2.1, fll, flc, rd])
         })
         .collect::<Vec<_>>();
     json!({"ev": "answers", "line": line, "lb": lb, "lc": lc, "spans": spans})
